@@ -1037,6 +1037,29 @@ theorem newSumAt_inv {s s' : St} {j1 j2 : Nat} (I : Inv s) (hs : s.thrown = fals
                 · obtain ⟨a1, a2, a3, a4, a5⟩ := writeCells_frame _ _ _ _ h
                   exact inv_of_same I1 a1 a2 a3 a4 a5
 
+theorem newListAt_inv {s s' : St} {k : Kind} {n0 n1 : Nat} {v0 : Int} (I : Inv s) (hs : s.thrown = false)
+    (h : newListAt s k n0 n1 v0 = .ok s') : Inv s' := by
+  unfold newListAt at h
+  split at h
+  · cases h
+  · exact newAt_inv I hs h
+
+theorem assignListAt_inv {s s' : St} {i n : Nat} {v0 : Int} (I : Inv s)
+    (h : assignListAt s i n v0 = .ok s') : Inv s' := by
+  unfold assignListAt at h
+  cases hg : getObj s i with
+  | error e => simp [hg] at h
+  | ok a =>
+    simp only [hg] at h
+    split at h
+    · cases h
+    · split at h
+      · exact resizeAt_inv I h
+      · split at h
+        · cases h
+        · obtain ⟨a1, a2, a3, a4, a5⟩ := writeCells_frame _ _ _ _ h
+          exact inv_of_same I a1 a2 a3 a4 a5
+
 theorem writeAt_inv {s s' : St} {i k : Nat} {v : Int} (I : Inv s) (h : writeAt s i k v = .ok s') : Inv s' := by
   unfold writeAt at h
   cases hg : getObj s i with
@@ -1084,6 +1107,8 @@ theorem inv_stepCore {s s' : St} (op : Op) (I : Inv s) (hs : s.thrown = false) (
   | write i k v => exact writeAt_inv I h
   | swap i j => exact swapAt_inv I h
   | newSum j1 j2 => exact newSumAt_inv I hs h
+  | newList k n0 n1 v0 => exact newListAt_inv I hs h
+  | assignList i n v0 => exact assignListAt_inv I h
   | failNext k => simp [stepCore] at h; subst h; exact ⟨I.core, I.grad⟩
 
 /-- every operation that returns — normally, or by throwing `std::bad_alloc` out of a failed allocation — preserves
@@ -2002,6 +2027,26 @@ theorem no_storage_faultCore {s : St} (I : Inv s) (op : Op) : Clean (stepCore s 
       · exact clean_badOp
   | swap i j => exact swapAt_clean
   | newSum j1 j2 => exact newSumAt_clean I
+  | newList k n0 n1 v0 =>
+    simp only [stepCore, newListAt]
+    split
+    · exact clean_badOp
+    · exact newAt_clean I
+  | assignList i n v0 =>
+    simp only [stepCore, assignListAt]
+    cases hg : getObj s i with
+    | error e => rw [getObj_err hg]; exact clean_badOp
+    | ok a =>
+      simp only
+      split
+      · exact clean_badOp
+      · split
+        · exact resizeAt_clean I
+        · split
+          · exact clean_err (by decide) (by decide)
+          · cases hw : writeCells s a.region (cells a) (iota n v0 ++ List.replicate (a.len - n) 0) with
+            | error e => rw [writeCells_err _ _ _ hw]; exact clean_badAccess
+            | ok s2 => exact clean_ok _
   | failNext k => exact clean_ok _
 
 theorem no_storage_fault {s : St} (I : Inv s) (op : Op) : Clean (step s op) :=
